@@ -10,6 +10,18 @@ COMMON_NOTE = ("Trusted base: TLC 1.8 evaluating the TLA+ specification in /veri
                "assumption of DESIGN 2.5 for the exhaustive part; simulated / random traces go beyond it.")
 
 CHECKS = {
+ "C14": dict(engine="Nvecs", design="3/C14",
+   text=("Nvecs.tla (extending the exact class of Hosvd.tla): for tensors with diagonal integer Gram matrices rotated in "
+         "mode n by a rational orthogonal matrix (identity, signed permutation, 3-4-5 rotation), the r leading mode-n "
+         "vectors are the rotated unit vectors in decreasing eigenvalue order with the sign rule applied - integers "
+         "after scaling by the rotation's denominator.  TLC checks their orthogonality law and enumerates tensors x "
+         "modes x r (iterative and dense branch) x rotations x flipsign; each case is presented in five holders "
+         "(dense, sparse, Kruskal, Tucker with dense / sparse core) and the real nvecs output must equal the "
+         "specified integer columns exactly.  General graded inputs are validated against the observation contract "
+         "(real, orthonormal, eigenpairs of the Gram matrix, decreasing order, dominant energy, sign rule)."),
+   technique="TLA+ exact-arithmetic spec Nvecs on a decidable input class; TLC generation + law checking; replay in five representations; TLC trace validation",
+   note=("Open known finding: sptensor.nvecs dense branch (row/column mix-up, pinned by its own doctest).  Trusted base: "
+         "holder construction and numpy eigen-observations in harness/c14.py, TLC.")),
  "C10": dict(engine="Hosvd", design="3/C10",
    text=("Hosvd.tla makes HOSVD a discrete state machine on the class of tensors whose nonzeros pairwise differ in two "
          "coordinates (diagonal Gram matrices with integer eigenvalues): modes are processed in the given order, the "
